@@ -125,6 +125,14 @@ enum ViotEntryType {
 /// A handle returned for a translation-type device (IOMMU)
 pub struct TranslationHandle(u16);
 
+#[cfg(rust_vmm_acpi_tables_verif)]
+impl TranslationHandle {
+    /// Verification hook: expose the offset value carried by the handle.
+    pub fn verif_value(&self) -> u16 {
+        self.0
+    }
+}
+
 pub struct PciDevice {
     segment: u16,
     bus: u8,
